@@ -200,7 +200,7 @@ R09D_EXCEPTIONS = {}
 
 @rule(
     "R09d",
-    ["C09", "C08", "C13"],
+    ["C09", "C08", "C13", "C12"],
     """KEY NAMESPACE DETERMINES ITS TASKS: for every key a layer stores under a namespace other than self._name, the set
     of operands the namespace expression depends on (self._name and a fresh uuid count as 'everything') must cover the
     operands the stored task and the loops / branches around the store depend on. A namespace built only from a
